@@ -10,6 +10,9 @@
    ClassicalElements / EquinoctialElements, the anomaly conversions and the three StateConfig
    descriptions.  Comparison in Cartesian space after round trips; element VALUES only where
    the spec says they are defined (sets where the convention is open); documented ranges.
+   The identity-orientation states are additionally composed in floating point with real-valued
+   nodes / inclinations / perigee arguments / sizes: the expected anomaly stays the spec's exact
+   quarter turn, and cosines of (anti-)parallel unit vectors overshoot [-1, 1] by an ulp in a fraction.
 3. Threshold-straddling variants (eccentricity / inclination epsilon around the circular and
    equatorial limits of the code) and seeded generic orbits: relations only (round trips,
    cross conversions, ranges, class flags for decided variants); the case table comes from TLC.
@@ -358,6 +361,74 @@ def _lattice_anomalies(sink, I, rec, ecc):
         sink.fail("anomaly-eccentric-cos-sin", f"cos/sin of the eccentric anomaly differ from the exact rationals (e = {ecc}, nu = {nu})", rp)
 
 
+# ------------------------------------------- lattice anomalies under real-valued orientations
+REAL_INC_DEG = (0.001, 28.5, 63.4, 90.0, 98.0, 145.0, 179.9)
+REAL_RAAN_DEG = (0, 10, 30, 45, 60, 90, 120, 135, 150, 180, 200, 225, 270, 300, 315, 330)
+REAL_ARGP_DEG = (0, 60, 90, 180, 200, 270)
+REAL_SMA_KM = (6700.0, 7000.0, 12345.678, 26560.0, 42164.0, 49999.9)
+
+
+def replay_real_orientations(ctx: Ctx, sink: Sink, I: Impl, orbits: list, rng: random.Random):
+    """The exact in-plane lattice state (the specification's state in the identity orientation:
+    anomaly 0 / 90 / 180 / 270 deg, exact r, v, e) composed IN FLOATING POINT with real-valued
+    nodes, inclinations, perigee arguments and sizes.  The anomaly expected from eci2coe is still the
+    specification's exact quarter turn (argument of latitude = argp + anomaly on the circular family);
+    only the orientation is real valued, so the angle-defining unit vectors are exactly (anti-)parallel
+    up to rounding and the cosines land one ulp outside [-1, 1] in a fraction of the cases."""
+    ident = [[[1, 1] if i == j else [0, 1] for j in range(3)] for i in range(3)]
+    base = [o for o in orbits if o["rot"] == ident]
+    if not base:
+        raise tlc.MachineryError("no identity-orientation lattice states emitted")
+    c = I.c
+    n = 0
+    for rec in base:
+        ecc = O.qf(rec["e"])
+        nu = O.quarter(rec["q"])
+        for a_km in REAL_SMA_KM:
+            S = O.Scaled(rec, a_km, I.mu)
+            r_pf, v_pf = S.pos(rec["r"]), S.vel(rec["v"])
+            for inc_d in REAL_INC_DEG:
+                r1 = O.rot1a(math.radians(inc_d))
+                for raan_d in REAL_RAAN_DEG:
+                    m_out = O.rot3a(math.radians(raan_d)) @ r1
+                    for argp_d in REAL_ARGP_DEG:
+                        m = m_out @ O.rot3a(math.radians(argp_d))
+                        x = np.concatenate([m @ r_pf, m @ v_pf])
+                        inc, raan, argp = math.radians(inc_d), math.radians(raan_d), math.radians(argp_d)
+                        case = "IE" if ecc > 0 else "IC"
+                        rp = {"family": rec["fam"], "q": rec["q"], "a_km": a_km, "inc_deg": inc_d, "raan_deg": raan_d,
+                              "argp_deg": argp_d, "state": x.tolist()}
+                        n += 1
+                        ctx.case(("real", rec["fam"], rec["q"], a_km, inc_d, raan_d, argp_d), nontrivial=True,
+                                 sample=rp if n == 1 else None)
+                        try:
+                            coe = c.eci2coe(x)
+                            exp = {"raan": (coe[3], raan)}
+                            if case == "IE":
+                                exp["argp"] = (coe[4], argp)
+                                exp["true_anomaly"] = (coe[5], nu)
+                            else:
+                                exp["arglat"] = (coe[5], argp + nu)
+                            for name, (got, want) in exp.items():
+                                _range_check(sink, "eci2coe", name, got, rp)
+                                if O.ang_diff(float(got), want) > TOL_ANGLE:
+                                    sink.fail(f"eci2coe-{name}-real-orientation-{case}",
+                                              f"eci2coe: {name} = {float(got)} expected {want % O.TWOPI} (lattice anomaly {90 * rec['q']} deg, "
+                                              f"i = {inc_d}, raan = {raan_d}, argp = {argp_d} deg, a = {a_km} km)", rp)
+                            if abs(coe[0] - a_km) > 1e-9 * a_km or abs(coe[1] - ecc) > 1e-11 or abs(coe[2] - inc) > 1e-7:
+                                sink.fail(f"eci2coe-shape-real-orientation-{case}", f"eci2coe (a, e, i) = {tuple(float(v) for v in coe[:3])} "
+                                          f"expected ({a_km}, {ecc}, {inc})", rp)
+                            if not _close(c.coe2eci(*coe), x, TOL_ACOS):
+                                sink.fail(f"coe-roundtrip-real-orientation-{case}", "coe2eci(eci2coe(x)) is not x for a lattice anomaly in a real-valued orientation",
+                                          dict(rp, coe=[float(v) for v in coe]))
+                            if n % 7 == 0 and not _close(I.el.ClassicalElements.fromECI(x).toECI(), x, TOL_ACOS):
+                                sink.fail(f"ClassicalElements-roundtrip-real-orientation-{case}", "ClassicalElements.fromECI(x).toECI() is not x", rp)
+                        except Exception as ex:  # noqa: BLE001
+                            sink.fail(f"exception-real-orientation-{case}-{type(ex).__name__}", f"conversion raised {ex!r}", rp)
+    ctx.traces_validated += n
+    ctx.extra["lattice_anomalies_in_real_orientations"] = n
+
+
 # ------------------------------------------------------------- relations on non-lattice orbits
 def _relations(sink: Sink, I: Impl, x, mu, cls, cases, tag: str, rp: dict, allow: float, retro_eq: bool, inc: float,
                decided: bool = True):
@@ -547,7 +618,8 @@ def run(ctx: Ctx):
     sched.install()
     rng = random.Random(ctx.seed * 104729 + 12)
     ctx.rule = ("lattice: every state of OrbitLattice.tla (family x 24 cube + 64 tilted orientations x 4 anomalies) at "
-                "2-4 sizes in 6700..50000 km and unscaled; non-trivial = every lattice state (each has its own singular case / "
+                "2-4 sizes in 6700..50000 km and unscaled; the identity-orientation lattice states (exact anomaly 0/90/180/270 deg) composed in floating "
+                "point with 7 inclinations x 16 nodes x 6 perigee arguments x 6 sizes (non-quarter-turn, e.g. 28.5/45/63.4 deg); non-trivial = every lattice state (each has its own singular case / "
                 "quadrant pattern); threshold variants: 8 eccentricities x 16 inclinations around the limits of the code x "
                 "random angles; seeded generic orbits a 6600-50000 km, e < 0.9, all inclinations incl. 1e-6 from 0 and pi; "
                 "seeded anomaly pairs incl. circular-limit eccentricities; distinct by the abstract input tuple")
@@ -570,6 +642,7 @@ def run(ctx: Ctx):
     impl = Impl()
     sink = Sink(ctx)
     replay_lattice(ctx, sink, impl, orbits, cases)
+    replay_real_orientations(ctx, sink, impl, orbits, rng)
     threshold_variants(ctx, sink, impl, cases, rng)
     seeded_generic(ctx, sink, impl, cases, rng)
     seeded_anomalies(ctx, sink, impl, rng)
